@@ -136,8 +136,19 @@ func pqlScalar(x parser.Expr, e *rowEnv) (Cell, bool) {
 	return Cell{}, false
 }
 
+// SortFlags states the direction and null placement of one sort term as written in the program text.
+type SortFlags struct{ Asc, NullsFirst bool }
+
+// SortOverride lets a harness that knows the program text state the flags of a
+// sort term independently of what the parser recorded (so that C02 does not
+// inherit a parser mistake about defaults).
+var SortOverride = map[*parser.SortTerm]SortFlags{}
+
 func pqlSortKey(t *Table, term *parser.SortTerm) (sortKey, bool) {
 	k := sortKey{desc: !term.Asc, nullsFirst: term.NullsFirst}
+	if f, ok := SortOverride[term]; ok {
+		k = sortKey{desc: !f.Asc, nullsFirst: f.NullsFirst}
+	}
 	for _, r := range t.Rows {
 		v, ok := pqlScalar(term.X, &rowEnv{t: t, row: r})
 		if !ok {
